@@ -260,6 +260,8 @@ def check_protect_pred(ctx, yc):
                         continue
                     if rx.item_admits(inner, ' ') and rx.item_admits(inner, '\t'):
                         has_space = d
+                    if rx.item_admits(inner, '#'):
+                        has_hash = d
             if any(isinstance(x, ast.Call) and call_name(x) == 'isspace' for x in ast.walk(d)):
                 has_space = d
     ctx.check('C01.PROTECT-PRED', has_empty is not None, f, quoted_if, 'protect quotes the empty string (%s)' % (src(has_empty) if has_empty else ''),
